@@ -309,19 +309,23 @@ def c07(ctx, res):
     hist_n = 1 if not ctx.thorough() else 12
     for h in range(hist_n):
         watch_history(ctx, res, cp, "C07", h)
+    watch_history(ctx, res, cp, "C07", 50, stack=True)
+    res.require(["watch_recheck", "watch_recheck_with_stack_flag"], "L2")
     return res
 
 
 CLEAR = re.compile(r"\x1b\[2J\x1b\[2;1H")
 
 
-def watch_history(ctx, res, cp, prop, h, length=4):
+def watch_history(ctx, res, cp, prop, h, length=4, stack=False):
     """Run `lace watch` on a file, rewrite it through a history of sources, compare each re-check
     with a fresh `lace check` of the same text."""
     import random
     rnd = random.Random(ctx.seed * 131 + h)
     d = _dir(ctx, "watch%d" % h)
-    pool = [(e["source"], e["uses_stack_ext"]) for e in cp["mixed"] if not e["uses_stack_ext"]]
+    pool = [(e["source"], e["uses_stack_ext"]) for e in cp["mixed"] if stack or not e["uses_stack_ext"]]
+    if stack:
+        pool.append(("push r0\npop r1\ncall f\nhalt\nf rets\n", True))
     pool += [(e["source"], False) for e in cp["emit_fail"] if not e["stack"]]
     # sources sharing label names with their predecessor, and one failing after labels were recorded
     pool.append(("dup add r0 r0 #1\ndup add r0 r0 #2\n", False))
@@ -337,25 +341,32 @@ def watch_history(ctx, res, cp, prop, h, length=4):
     _write(path, "halt\n")
     exe = common.cli_bin(ctx)
     env = dict(common.ENV, NO_COLOR="1")
-    log = open(os.path.join(d, "watch.out"), "wb")
-    p = subprocess.Popen([exe, "watch", "w.asm"], cwd=d, stdin=subprocess.DEVNULL, stdout=log,
+    # the log and the files for the fresh checks live OUTSIDE the watched directory: every write
+    # inside it would trigger another re-check
+    side = _dir(ctx, "watchside%d" % h)
+    logpath = os.path.join(side, "watch.out")
+    log = open(logpath, "wb")
+    fl = ["-f", "stack"] if stack else []
+    if stack:
+        hist[3 % length] = "push r0\npop r1\ncall f\nhalt\nf rets\n"
+    p = subprocess.Popen([exe, "watch", "w.asm"] + fl, cwd=d, stdin=subprocess.DEVNULL, stdout=log,
                          stderr=subprocess.STDOUT, env=env)
     try:
         time.sleep(1.0)
         segments = []
         for k, src in enumerate(hist):
-            before = os.path.getsize(os.path.join(d, "watch.out"))
+            before = os.path.getsize(logpath)
             _write(path, src)
             # wait for a complete re-check (the output settles)
             deadline = time.time() + 8
             last = -1
             while time.time() < deadline:
                 time.sleep(0.4)
-                size = os.path.getsize(os.path.join(d, "watch.out"))
+                size = os.path.getsize(logpath)
                 if size > before and size == last:
                     break
                 last = size
-            out = open(os.path.join(d, "watch.out"), "rb").read()[before:].decode("utf-8", "replace")
+            out = open(logpath, "rb").read()[before:].decode("utf-8", "replace")
             segments.append(out)
         alive = p.poll() is None
     finally:
@@ -368,9 +379,11 @@ def watch_history(ctx, res, cp, prop, h, length=4):
     for k, (src, seg) in enumerate(zip(hist, segments)):
         res.evaluations += 1
         res.cls("watch_recheck")
+        if stack:
+            res.cls("watch_recheck_with_stack_flag")
         fresh_name = "fresh%d.asm" % k
-        _write(os.path.join(d, fresh_name), src)
-        fresh = lace(ctx, ["check", fresh_name], cwd=d)
+        _write(os.path.join(side, fresh_name), src)
+        fresh = lace(ctx, ["check", fresh_name] + fl, cwd=side)
         fresh_ok = fresh.rc == 0
         checks = [s for s in CLEAR.split(seg) if "Re-checking" in s]
         detail = {"history": hist[:k + 1], "watch_output": seg[-800:], "fresh_check": fresh.brief()}
